@@ -139,6 +139,8 @@ def check_case(ctx, c, k_cache):
     fl['zero_count_bitmap'] = zero_count_bitmap(c.get('impl_dec'))
     # the hypothesis of the proved theorem C08_compile_exec_equiv, evaluated by the extracted model
     fl['ok_c08'] = bool(c.get('okc08'))
+    if c.get('witness'):
+        fl['witness'] = c['witness']
     e = c['impl_enc']
     # --- encode: compiled vs interpreted (implementation), compiled (model)
     cc = dict(c)
@@ -238,9 +240,20 @@ def run(ctx):
         {'ids': [12001, 224000, 236000, 101001, 31031, 8023, 204008, 31021, 224255, 204000], 'forced': '31031=0'},
         # D5: 203000 (cancel) before a marker operator on the redefined element
         {'ids': [203012, 7001, 203255, 7001, 203000, 223000, 236000, 101001, 31031, 223255], 'forced': '31031=0'},
+        # D28: a zero-count delayed replication of class 33 after 222000 (the 222 status is resolved at compile time)
+        {'ids': [12001, 12001, 222000, 236000, 101002, 31031, 101000, 31001, 33007, 12001, 33007], 'forced': '31001=0;31031=0.0',
+         'witness': 'D28'},
+        # D29: a bitmap definition completed inside a replication body
+        {'ids': [12001, 12001, 224000, 236000, 102002, 31031, 12001, 224255], 'forced': '31031=0.0', 'witness': 'D29'},
+        # D30: a marker operator while the 222000 status is "processing"
+        {'ids': [12001, 12001, 12001, 222000, 236000, 101003, 31031, 33007, 224255, 33007], 'forced': '31031=0.0.0',
+         'witness': 'D30'},
+        # D31: 203000 inside a replication body (D5 without a marker operator)
+        {'ids': [203012, 7001, 203255, 105002, 7001, 203000, 203012, 7002, 203255, 203000], 'forced': '-', 'witness': 'D31'},
     ]
     pre = [{'ids': w['ids'], 'version': 33, 'edition': 4, 'nsub': 1, 'compressed': False, 'forced': w['forced'],
-            'seed': 11 + k, 'maxrep': 3, 'features': {'corpus': 1}, 'shared': False} for k, w in enumerate(corpus)]
+            'seed': 11 + k, 'maxrep': 3, 'features': {'corpus': 1}, 'shared': False, 'witness': w.get('witness')}
+           for k, w in enumerate(corpus)]
     cases = pre + cases
     P.attach_templates(cases)
     live = [c for c in cases if c.get('toks')]
@@ -275,8 +288,8 @@ def run(ctx):
         with lib.time_limit(300):
             di = check_case(ctx, c, k_cache)
         fl = flags_of(c['ids'], c.get('version', 33))
-        if di is not None and di[0] == 'ok' and not (fl['marker_under_204'] or fl['marker_after_203000']
-                                                     or zero_count_bitmap(di)):
+        if di is not None and di[0] == 'ok' and not c.get('witness') and not (fl['marker_under_204'] or fl['marker_after_203000']
+                                                                              or zero_count_bitmap(di)):
             good.append((c, di))
         ctx.sample({'ids': c['ids'], 'cache_max': k_cache}, limit=3)
     ctx.extra['scoped_rejected_by_ok_c08_and_ok_c08_nz'] = rejected[:40]
